@@ -10,7 +10,8 @@ RULE = ("Hypothesis: gate sequences of length 0..300 over {id,x,y,z,h,s,sdg,cx,c
         "circuits with local and Pauli gates) x the configurations of n; quick 16 x 100 cases, thorough 16 x 2500; plus, per "
         "configuration: one constructed member of every class, named textbook states, the exhaustive family 'Bell pair moved by SWAPs', "
         "and input circuits that never touch some qubits of the register (all Bell pairs, GHZ stars/chains, pairs of Bell pairs, lines "
-        "on 4 qubits, drawn sub-circuits on k < n qubits). A case is "
+        "on 4 qubits, drawn sub-circuits on k < n qubits), and the graph each table entry stores in drawn local frames (quick: one "
+        "frame per entry for n <= 5; thorough: 12 per entry of all 20 tables). A case is "
         "one call of compress_preparation_circuit. Non-trivial = input has >= 1 two-qubit gate, the state is entangled and "
         "the input has more two-qubit gates than the class cost; distinct by (n, connectivity, gate list). Oracle: dense "
         "fidelity of input and output states = 1 (1e-9); coupling table; two-qubit count = cost column of the class found "
@@ -157,6 +158,33 @@ def shard_classes(arg):
     return rep
 
 
+def shard_table_frames(arg):
+    """the graph-state circuit of the graph each table entry stores, followed by a drawn single-qubit Clifford on every qubit (k frames
+    per entry): frames are taken relative to the very graph the local-layer search will be asked to reach"""
+    n, name, cids, k, seed = arg
+    from gen import tableinfo
+    from gen import members as _m
+    rep = fw.Report()
+    ent = tableinfo.parsed(n, name)
+    for cid in cids:
+        if cid >= len(ent) or ent[cid] is None:
+            continue
+        gid = ent[cid][0]
+        for j in range(k):
+            rng = fw.rng_for("c07tf", seed, n, name, cid, j)
+            circ = [["h", [q]] for q in range(n)] + [["cz", list(e)] for e in lc.edges_from_gid(n, gid)]
+            for q in range(n):
+                circ += [[g, [q]] for g in rng.choice(_m.LOCAL_WORDS)] + [[g, [q]] for g in rng.choice(_m.PAULI_WORDS)]
+            case = {"n": n, "connectivity": name, "ops": circ, "format": "circuit"}
+            nt, tabs = classify(case)
+            rep.case(nt, None)
+            rep.count("config", f"{n}-{name}")
+            rep.count("table_graph_in_drawn_frame", "n=%d" % n)
+            for key, msg, extra in check_compress(case):
+                rep.fail(key, case, msg + " [table graph of the class in a drawn local frame]", **extra)
+    return rep
+
+
 def shard_idle(arg):
     """input circuits that never touch some qubits of the register (Bell pairs, GHZ, short lines, drawn sub-circuits on a subset)"""
     n, name, seed, quick = arg
@@ -176,6 +204,8 @@ def shard_idle(arg):
 def shard_any(arg):
     if arg[0] == "idle":
         return shard_idle(arg[1:])
+    if arg[0] == "table-frames":
+        return shard_table_frames(arg[1:])
     if arg[0] == "classes":
         return shard_classes(arg[1:])
     if arg[0] == "bellswap":
@@ -193,6 +223,12 @@ def run(ctx):
         for chunk in fw.split(_m.orbit_reps(n), {2: 1, 3: 1, 4: 1, 5: 6, 6: 64}[n]):
             cargs.append(("classes", n, chunk, ctx.seed))
     args = cargs + [("idle", n, name, ctx.seed, ctx.quick) for (n, name) in sorted(coupling.CONFIGS, key=lambda c: -c[0]) if n >= 3] + [("bellswap", n, name, ctx.seed, not ctx.quick) for (n, name) in sorted(coupling.CONFIGS, key=lambda c: -c[0])] + [("named", n, ctx.seed, part, {2: 1, 3: 1, 4: 2, 5: 6, 6: 16}[n]) for n in (6, 5, 4, 3, 2) for part in range({2: 1, 3: 1, 4: 2, 5: 6, 6: 16}[n])] + [(ctx.seed * 1000 + i, per, ctx.deadline) for i in range(16)]
+    kc = {2: 2, 3: 5, 4: 18, 5: 93, 6: 760}
+    for (n, name) in sorted(coupling.CONFIGS, key=lambda c: -c[0]):
+        if ctx.quick and n == 6:
+            continue      # quick: n <= 5 only (one frame per entry); thorough: 12 frames per entry of every table
+        for chunk in fw.split(list(range(kc[n])), 1 if n < 6 else 8):
+            args.append(("table-frames", n, name, chunk, 1 if ctx.quick else 12, ctx.seed))
     rep = fw.run_shards(ctx, "props.c07", "shard_any", args)
     rep.extra["classes_hit"] = {k[len("orbits_n"):]: len(v) for k, v in rep.hist.items() if k.startswith("orbits_n")}
     for k in [k for k in rep.hist if k.startswith("orbits_n")]:
